@@ -281,9 +281,26 @@ def multisphere(check, prog, canon):
     setups = [c for c in it.calls if c['name'].endswith('_scsmfo_setup')]
     users = [c for c in it.calls if any(c['name'].endswith(n) for n in (
         '_calc_cext', '_calc_cscat', '_calc_asym'))]
+    def bound(u, pname):
+        # the value a helper receives for its parameter, by keyword or position
+        v = dict(u['kwargs']).get(pname)
+        if v is not None:
+            return v
+        hit = prog.lookup(MS, u['name'].split('.')[-1])
+        if hit and hit[0] == 'method':
+            names = [a.arg for a in hit[2].args.args]
+            args = list(u['args'])
+            # method call records carry the receiver first
+            if len(args) == len(names) or (args and args[0] == sym('self')):
+                pass
+            if pname in names:
+                i = names.index(pname)
+                if i < len(args):
+                    return args[i]
+        return None
     ok = len(setups) == 1 and len(users) == 3 and all(
-        dict(u['kwargs']).get('amn') is not None and
-        calls_in(dict(u['kwargs'])['amn'], '_scsmfo_setup') for u in users)
+        bound(u, 'amn') is not None and
+        calls_in(bound(u, 'amn'), '_scsmfo_setup') for u in users)
     check.require(ok, 'E3-one-solution', 'Multisphere.raw_cross_sections',
                   'extinction, scattering and asymmetry are computed from one and the '
                   'same set of expansion coefficients', loc)
